@@ -9,6 +9,7 @@ import Pygom.OpsStoch
 import Pygom.OpsSens
 import Pygom.OpsLoss
 import Pygom.OpsCanary
+import Pygom.OpsEst
 
 namespace Pygom
 open Lean (Json)
@@ -21,6 +22,7 @@ def handlers : List (String → Json → Option (Except String Json)) :=
   , handleSens
   , handleLoss
   , handleCanary
+  , handleEst
   ]
 
 def handle (j : Json) : Json :=
